@@ -67,6 +67,7 @@ fn main() {
         "check" => check(&args[2..]),
         "replay" => replay(&args[2..]),
         "selftest" => selftest(),
+        "table16" => props::c16::table_dump_main(parse_tier(args.get(2).map(|s| s.as_str()).unwrap_or("quick")), args.get(3).and_then(|s| s.parse().ok()).unwrap_or(0), args.get(4).map(|s| s.as_str()).unwrap_or("/verif/.target/tmp/table16.txt")),
         "solo16" => props::c16::solo_main(args.get(2).and_then(|s| s.parse().ok()).unwrap_or(0)),
         _ => usage(),
     }
@@ -220,9 +221,26 @@ fn check(a: &[String]) {
         let diff = rel.symmetric_difference(&dev).count();
         profile_table = (rel.len(), dev.len(), diff);
         if diff > 0 {
+            // name the programs: dump the table under both builds and compare line by line
+            let mut differing: Vec<Value> = Vec::new();
+            if id == "C16" {
+                let dir = "/verif/.target/tmp";
+                let (fr, fd) = (format!("{dir}/table16-rel.txt"), format!("{dir}/table16-dev.txt"));
+                let _ = std::process::Command::new("/verif/.target/release/nlmc").args(["table16", tier.name(), &seed.to_string(), &fr]).status();
+                let _ = std::process::Command::new("/verif/.target/devchk/nlmc").args(["table16", tier.name(), &seed.to_string(), &fd]).status();
+                if let (Ok(a), Ok(b)) = (std::fs::read_to_string(&fr), std::fs::read_to_string(&fd)) {
+                    for (la, lb) in a.lines().zip(b.lines()) {
+                        if la != lb && differing.len() < 8 {
+                            let (ta, oa) = la.split_once('\t').unwrap_or((la, ""));
+                            let (_, ob) = lb.split_once('\t').unwrap_or((lb, ""));
+                            differing.push(json!({"program": ta, "release": oa, "debug": ob}));
+                        }
+                    }
+                }
+            }
             violations.push(json!({
                 "index": 0, "class": "profiles",
-                "case": {"table": "profile-tables"},
+                "case": {"table": "profile-tables", "differing_programs": differing},
                 "detail": format!("{diff} (program, outcome) entries differ between the release-like build ({} entries) and the debug-assertion build ({} entries): evaluation depends on the build profile", rel.len(), dev.len()),
             }));
         }
